@@ -83,6 +83,25 @@ MUTANTS = [
     dict(id="c14-no-threshold", prop="C14", file=S, find="if num::BigInt::from(present_votes) * 3 > num::BigInt::from(total_votes) * 2 {", repl="if present_votes > 0 || total_votes == 0 {", expect="R2/"),
     dict(id="c14-q-hash-once", prop="C14", file=S, find="        for (k, sig) in cproof.iter() {\n            if !k.verify(&self.header().hash(), sig) {", repl="        let hh = self.header().hash();\n        for (k, sig) in cproof.iter() {\n            if !k.verify(&hh, sig) {", expect=None),
     dict(id="c14-q-u128-exact", prop="C14", file=S, find="if num::BigInt::from(present_votes) * 3 > num::BigInt::from(total_votes) * 2 {", repl="if num::BigInt::from(total_votes) * 2 < num::BigInt::from(present_votes) * 3 {", expect=None),
+    # ---------------------------------------------------------------- C13
+    dict(id="c13-start-ge", prop="C13", file=A, find="stake_doc.e_start > curr_epoch", repl="stake_doc.e_start >= curr_epoch", expect="R1/consistent/"),
+    dict(id="c13-end-ge", prop="C13", file=A, find="&& stake_doc.e_post_end > stake_doc.e_start", repl="&& stake_doc.e_post_end >= stake_doc.e_start", expect="R1/consistent/"),
+    dict(id="c13-drop-value", prop="C13", file=A, find="\n        && stake_doc.syms_staked == coin.value", repl="", expect="R1/consistent/missing"),
+    dict(id="c13-drop-sym", prop="C13", file=A, find="            if !coin_is_denom(first_coin, Denom::Sym) {\n                return Err(StateError::MalformedTx);\n            }\n", repl="", expect="R2/sym/"),
+    dict(id="c13-sym-continue", prop="C13", file=A, find="            if !coin_is_denom(first_coin, Denom::Sym) {\n                return Err(StateError::MalformedTx);\n            }\n", repl="            if !coin_is_denom(first_coin, Denom::Sym) {\n                continue;\n            }\n", expect="R2/sym/false=>err"),
+    dict(id="c13-register-inconsistent", prop="C13", file=A, find="                log::warn!(\"**** REJECTING STAKER {:?} ****\", stake_doc);\n                continue;", repl="                log::warn!(\"**** REJECTING STAKER {:?} ****\", stake_doc);\n                accum.insert(tx.hash_nosigs(), stake_doc);", expect="R2/"),
+    dict(id="c13-legacy-wider", prop="C13", file=A, find="&& this.height.0 < 500000", repl="&& this.height.0 < 5000000", expect="R2/legacy/height"),
+    dict(id="c13-legacy-all-nets", prop="C13", file=A, find="            if (this.network == NetID::Mainnet || this.network == NetID::Testnet)\n                && this.height.0 < 500000", repl="            if this.height.0 < 500000", expect="R2/legacy/confined"),
+    dict(id="c13-epoch-of-coin", prop="C13", file=A, find="let curr_epoch = this.height.epoch();", repl="let curr_epoch = this.height.epoch().saturating_sub(1);", expect="R2/consistent/args"),
+    dict(id="c13-unlock-gt", prop="C13", file=SS, find="self.stakes.retain(|_, v| v.e_post_end >= epoch);", repl="self.stakes.retain(|_, v| v.e_post_end > epoch);", expect="R5/unlock_old/filter"),
+    dict(id="c13-votes-lt", prop="C13", file=SS, find=".filter(|v| v.e_start <= epoch && v.e_post_end > epoch && v.pubkey == key)", repl=".filter(|v| v.e_start < epoch && v.e_post_end > epoch && v.pubkey == key)", expect="R5/votes/filter"),
+    dict(id="c13-total-votes-ge", prop="C13", file=SS, find=".filter(|v| v.e_start <= epoch && v.e_post_end > epoch)\n", repl=".filter(|v| v.e_start <= epoch && v.e_post_end >= epoch)\n", expect="R5/total_votes/filter"),
+    dict(id="c13-unlock-old-height", prop="C13", file=S, find="        new.height += BlockHeight(1);\n        new.stakes.unlock_old((new.height / STAKE_EPOCH).0);", repl="        new.stakes.unlock_old((new.height / STAKE_EPOCH).0);\n        new.height += BlockHeight(1);", expect="R4/after-increment"),
+    dict(id="c13-no-lock-new-stakes", prop="C13", file=A, find="        if (new_stakes.contains_key(&coin_id.txhash)\n            || this.stakes.get_stake(coin_id.txhash).is_some())", repl="        if (this.stakes.get_stake(coin_id.txhash).is_some())", expect="R3/new-stakes/test"),
+    dict(id="c13-lock-legacy-wider", prop="C13", file=A, find="&& this.height.0 < 900000)", repl="&& this.height.0 < 9000000)", expect="R3/legacy/height"),
+    dict(id="c13-lock-after-scripts-only-first", prop="C13", file=A, find="        if (new_stakes.contains_key(&coin_id.txhash)\n", repl="        if spend_idx == 0 && (new_stakes.contains_key(&coin_id.txhash)\n", expect="R3/locked/"),
+    dict(id="c13-stakes-before-create", prop="C13", file=A, find="    for (k, v) in new_stakes {\n        next_state.stakes.add_stake(k, v);\n    }\n    Ok(next_state)", repl="    for (k, v) in new_stakes.into_iter().take(1) {\n        next_state.stakes.add_stake(k, v);\n    }\n    Ok(next_state)", expect="R6/add/"),
+    dict(id="c13-q-fold-sum", prop="C13", file=A, find="    stake_doc.e_start > curr_epoch\n        && stake_doc.e_post_end > stake_doc.e_start", repl="    stake_doc.e_post_end > stake_doc.e_start\n        && curr_epoch < stake_doc.e_start", expect=None),
     # quiet ones
     dict(id="c05-q-le", prop="C05", file=A, find="if tx.fee < min_fee {", repl="if !(tx.fee >= min_fee) {", expect=None),
     dict(id="c05-q-div65536", prop="C05", file=S, find="CoinValue(self.fee_pool.0 >> 16)", repl="CoinValue(self.fee_pool.0 / 65536)", expect=None),
